@@ -8,9 +8,13 @@ LEVEL_TEXT = ("Lean proof for every expression tree (unbounded depth) over a han
               "Python expression grammar and the two symbol tables regenerated from source; the real-number laws are proved "
               "for R with Mathlib (Real.rpow, zpow, Real.sqrt/exp/log/sin, abs), so the round trip is a theorem about real "
               "values with no abstract law left, and it is stated on the printed STRING (tokenizer inverse of render proved); "
-              "model tied to the code by string-exact correspondence, parser tied to CPython's ast.parse")
-TECHNIQUE = "Lean 4 theorems + translator (symbol tables) + correspondence (printer strings, parser ASTs) + numeric round-trip oracle"
-RULE = ("one case = one distinct evaluated sympy expression (keyed by its srepr) built under x>0, a0..a2 real from ESR's vocabulary: "
+              "model tied to the code by string-exact correspondence, parser tied to CPython's ast.parse; purity of the printer OBJECT: "
+              "decide over the regenerated table of state cells of custom_printer.py + induction over histories of completed and interrupted prints, "
+              "tied by a history search with genuine TimeoutExceptions at every statement site")
+TECHNIQUE = ("Lean 4 theorems + translator (symbol tables, printer state cells) + correspondence (printer strings, parser ASTs, print histories with "
+             "injected time-outs) + numeric round-trip oracle")
+RULE = ("[histories: a sample of the expressions driven through print/interrupted-print histories is also counted, keyed history:<srepr>] "
+        "one case = one distinct evaluated sympy expression (keyed by its srepr) built under x>0, a0..a2 real from ESR's vocabulary: "
         "all single-operator expressions over a 15-atom alphabet, a deterministic slice of the two-operator ones, and random trees "
         "of depth <= 6 (thorough: all unary-over-single-operator, wider binary slice, more random); non-trivial = contains an "
         "operator and is finite at >= 1 of the generic points")
@@ -23,7 +27,16 @@ EXPLANATION = ("Lean: (0) tokenize(render toks) = toks for every token list with
                "power (and, for fitting, log) arguments are non-negative. Tie: ESRPrinter().doprint == model print as strings, "
                "Lean parse == CPython ast.parse on every printed string, tables extracted from source. Oracle: the real string "
                "parsed by initial_sympify's table, generator.string_to_expr and Likelihood.run_sympify, compared numerically with "
-               "the original expression.")
+               "the original expression. Purity (Props/C12c): the translator lists every state cell of custom_printer.py (instance attributes stored or "
+               "mutated in place by any method, also through aliases; class attributes; module globals; mutable defaults; memo decorators; function "
+               "attributes) and of sympy's Printer base class; printer_has_no_print_time_state decides that none is written while printing except "
+               "_print_level, which Printer._print restores in a finally; print_history_independent: a printer whose state is the content of the "
+               "print-time cells returns, after any history of completed and interrupted prints, what a fresh one returns; stale_cache_needed: with a "
+               "fill-in-place cache cell a 2-step history prints a truncated sum. Tie: worker c12_history keeps ONE ESRPrinter per shard, prints "
+               "expressions with nested sums/products/powers, their sub-/super-expressions and -1/-2 variants, and for every distinct (method, line) of "
+               "custom_printer.py reached delivers SIGALRM inside simplifier.time_limit at that line event (real TimeoutException, caught as the "
+               "simplifier stage does), then prints again with the same object: every completed print must equal the fresh-state string, which must "
+               "equal the Lean print and read back numerically.")
 TRUSTED = ["hand model ESRVerif/Model/Printer.lean of ESRPrinter (tied by string-exact correspondence on every generated expression)",
            "Lean tokenizer vs Python's tokenizer: tokenize(render toks) = toks is PROVED (Proofs/PrinterLex.lean: tokenize_render, for tokens whose "
            "names are identifiers, Float texts d+.d*[e[+-]d+], and no two adjacent alphanumeric tokens / '*' before '*'); that this Lean tokenizer "
@@ -34,7 +47,10 @@ TRUSTED = ["hand model ESRVerif/Model/Printer.lean of ESRPrinter (tied by string
            "(instance realLike: Real.rpow, zpow, Real.sqrt/exp/log/sin, |.|, total division x/0 = 0; lemmas mul_inv, zpow_neg, Real.rpow_neg (0<=x, "
            "shown necessary by rpow_neg_needs_nonneg), abs_of_nonneg, Real.sqrt_eq_rpow); what stays trusted is that sympy's Pow/Abs/log/sqrt on "
            "admissible arguments denote these Mathlib functions (numeric oracle)"]
-ASSUMPTIONS = ["string-level theorems also assume `lexical e`: symbol names are identifiers ([A-Za-z_][A-Za-z0-9_]*) and Float texts have the shape "
+ASSUMPTIONS = ["history independence: the printer's state is what the cell table lists (syntactic stores/mutators on self.X, aliases of them, class, module, "
+               "default, memo, funcattr cells; setattr/__dict__/vars/globals/exec are refused); state hidden inside sympy objects or reached through an "
+               "unknown callee is covered by the history search only; interruptions are delivered at line events of custom_printer.py frames (not inside sympy)",
+               "string-level theorems also assume `lexical e`: symbol names are identifiers ([A-Za-z_][A-Za-z0-9_]*) and Float texts have the shape "
                "d+.d*[(e|E)[+-]d+] (what sympy prints); the check only admits such expressions (symbols x, a0..a2; floats matching PLAIN_FLOAT)",
                "theorems assume `canonical e` (sympy's evaluated form: flattened sums, one leading numeric coefficient, integer powers distributed) "
                "and `Adm` (symbols are not table functions; bases of non-integer powers >= 0; for the fitting table also log arguments >= 0); "
@@ -50,6 +66,8 @@ FALLBACK = {'SymTab': 'every generated expression printed by the real printer an
             'PrinterState': 'history correspondence: long-lived ESRPrinter objects (and the module-level sstr) driven through sequences of prints and of prints '
                             'interrupted by a genuine simplifier.TimeoutException at every (method, line) site of custom_printer.py reached; every completed print '
                             'equals the string of a fresh printer in a fresh process state, equals the Lean model print, and reads back numerically under both tables'}
+# PrinterState: when a print-time cell appears the translator refuses (ExtractError); the committed table (no such cell) then stands for the
+# stateless model and the history search decides: a failing history -> VIOLATION with the history as replay; none -> NOTE, exit 0
 MODELLED = ["ESRPrinter.parenthesize", "ESRPrinter.stringify", "ESRPrinter._print_Add", "ESRPrinter._print_Mul", "ESRPrinter._print_Pow",
             "ESRPrinter._print_Function", "ESRPrinter._print_Integer", "ESRPrinter._print_Rational", "ESRPrinter._print_Float",
             "ESRPrinter._print_Symbol"]
